@@ -38,8 +38,22 @@ GRID = {
 }
 
 
+# realistic polymer masses (tens of kg/mol): tables, caches or truncations sized for the small examples of the documentation show up here
+GRID_LARGE = {
+    "gauss": [(80000, 8000)],
+    "uniform": [(50000, 120000)],
+    "log_normal": [(60000, 1.3)],
+    "poisson": [(90000,)],
+    "schulz_zimm": [(75000, 50000)],
+}
+GRID_LARGE_THOROUGH = {"schulz_zimm": [(200000, 150000), (120000, 100000)], "flory_schulz": [(2e-5,)], "log_normal": [(250000, 1.8)], "gauss": [(1e6, 1e5)]}
+
+
 def plan(tier, seed):
     cases = []
+    for fam, lst in list(GRID_LARGE.items()) + (list(GRID_LARGE_THOROUGH.items()) if tier == "thorough" else []):
+        for p in lst:
+            cases.append({"family": fam, "params": list(p), "seed": seed, "nq": 160 if tier == "quick" else 600, "nd": 3000 if tier == "quick" else 10000})
     for fam, lst in GRID.items():
         for p in lst:
             cases.append({"family": fam, "params": list(p), "seed": seed, "nq": 160 if tier == "quick" else 2000, "nd": 3000 if tier == "quick" else 20000})
